@@ -48,6 +48,7 @@ def encoded_region(b, rng, name="s"):
     for v in pool:
         b.push("r0", v, b.form_for(v))
     b.merge(name, ["r0"])
-    if isinstance(pool[0], (bytes, list)):
-        pool.append(empty_like(pool[0]))
+    if b.sh[0] in ("bytes", "list", "tup", "opt", "res"):
+        from props.regcommon import empty_value
+        pool.append(empty_value(rng, b.sh))
     return pool
